@@ -16,8 +16,9 @@ VARIABLES l,        \* index of the next event
           tms,      \* parser name :-> observed caches (JSON form) after its last call
           lasts,    \* parser name :-> recency maps (specification state)
           allowed,  \* parser name :-> allowed versions
-          pend      \* <<>> or << [p, buf] >> : the call in flight
-vars == <<l, tms, lasts, allowed, pend>>
+          pend,     \* <<>> or << [p, buf] >> : the call in flight
+          acc       \* parser name :-> [out, nbytes] accumulated since `new` (relational rounds)
+vars == <<l, tms, lasts, allowed, pend, acc>>
 
 EmptyObsTm == [v9 |-> [data |-> <<>>, opts |-> <<>>], ipfix |-> [data |-> <<>>, opts |-> <<>>]]
 TmFor(caches, p) == caches[CHOOSE i \in 1..Len(caches) : caches[i].p = p].tmpl
@@ -29,26 +30,27 @@ Emit(F) == \A f \in F : PrintT("FINDING~~" \o ToString(l) \o "~~" \o f[1] \o "~~
 
 IsEvent(e) == l <= Len(Rec) /\ Rec[l].e = e /\ l' = l + 1 /\ TLCSet(1, l)
 
-TraceInit == /\ l = 1 /\ tms = EmptyMap /\ lasts = EmptyMap /\ allowed = EmptyMap /\ pend = <<>>
+TraceInit == /\ l = 1 /\ tms = EmptyMap /\ lasts = EmptyMap /\ allowed = EmptyMap /\ pend = <<>> /\ acc = EmptyMap
              /\ TLCSet(1, 0)
 
 EvReset == /\ IsEvent("reset")
-           /\ tms' = EmptyMap /\ lasts' = EmptyMap /\ allowed' = EmptyMap /\ pend' = <<>>
+           /\ tms' = EmptyMap /\ lasts' = EmptyMap /\ allowed' = EmptyMap /\ pend' = <<>> /\ acc' = EmptyMap
 
 EvNew == /\ IsEvent("new")
          /\ tms' = MapPut(tms, Rec[l].p, EmptyObsTm)
          /\ lasts' = MapPut(lasts, Rec[l].p, EmptyLast)
          /\ allowed' = MapPut(allowed, Rec[l].p, ToSet(Rec[l].allowed))
+         /\ acc' = MapPut(acc, Rec[l].p, [out |-> <<>>, nbytes |-> 0, calls |-> <<>>])
          /\ UNCHANGED pend
 
 EvAllow == /\ IsEvent("allow")
            /\ allowed' = MapPut(allowed, Rec[l].p, ToSet(Rec[l].allowed))
-           /\ UNCHANGED <<tms, lasts, pend>>
+           /\ UNCHANGED <<tms, lasts, pend, acc>>
 
 EvCall == /\ IsEvent("call")
           /\ Rec[l].p \in DOMAIN tms
           /\ pend' = << [p |-> Rec[l].p, buf |-> Rec[l].buf] >>
-          /\ UNCHANGED <<tms, lasts, allowed>>
+          /\ UNCHANGED <<tms, lasts, allowed, acc>>
 
 \* nothing learned by one parser instance is visible to another (C06)
 Isolation(ev, p) ==
@@ -56,7 +58,112 @@ Isolation(ev, p) ==
       i \in {q \in 1..Len(ev.caches) : ev.caches[q].p # p /\ ev.caches[q].p \in DOMAIN tms
                                         /\ ev.caches[q].tmpl # tms[ev.caches[q].p]}}
 
-EvRet == /\ IsEvent("ret")
+\* C17: with parse_unknown_fields off, a data set governed by a template that has a field the library
+\* does not know is never reported as decoded records
+HasUnknown(def) == \E j \in 1..Len(def.fields) : def.fields[j].kind = "Unknown" /\ ~def.fields[j].ent
+DefsOf(tm, proto) == [data |-> ListToMap(tm[proto].data), opts |-> ListToMap(tm[proto].opts)]
+UnknownNotDecoded(out, post) ==
+  IF PufOn THEN {}
+  ELSE UNION {
+    IF out[i].k \notin {"v9", "ipfix"} THEN {}
+    ELSE LET ds == DefsOf(post, out[i].k) IN
+         UNION {LET s == out[i].sets[q] IN
+                IF s.k = "data" /\ s.id \in DOMAIN ds.data /\ HasUnknown(ds.data[s.id])
+                     /\ (IF out[i].k = "v9" THEN s.recs # <<>> ELSE s.maps # <<>>)
+                  THEN {<<"C17", out[i].k \o ".data", "unknown-field-decoded", "">>}
+                ELSE IF s.k = "odata" /\ out[i].k = "ipfix" /\ s.id \in DOMAIN ds.opts /\ HasUnknown(ds.opts[s.id]) /\ s.maps # <<>>
+                  THEN {<<"C17", "ipfix.odata", "unknown-field-decoded", "">>}
+                ELSE {}
+                : q \in 1..Len(out[i].sets)}
+    : i \in 1..Len(out)}
+
+(***************************************************************************)
+(* C15: the cost model.  Units(out) counts what a result holds: items,     *)
+(* sets, records, values and bytes.  Received(buf, tm) is what was         *)
+(* received to produce it: the buffer plus the wire size of the cached     *)
+(* templates.  The measured numbers (KiB, so that they fit TLC's integers) *)
+(* come from the counting allocator of the harness.                        *)
+(*   CostA : allocated <= K1 * |buf| + K2 * |json(result)| + C0            *)
+(*   CostB : Units(out) <= K3 * Received + C1                              *)
+(***************************************************************************)
+K1 == 64   K2 == 32   C0kib == 256   K3 == 4   C1 == 64
+ValUnits(vals) == Len(vals) + SumSeq([i \in 1..Len(vals) |-> Len(vals[i].v.b)])
+SetUnits(proto, st) ==
+  1 + Len(st.pad) +
+  (CASE st.k = "data" /\ proto = "v9" -> Len(st.recs) + SumSeq([r \in 1..Len(st.recs) |-> ValUnits(st.recs[r])])
+     [] st.k \in {"data", "odata"} /\ proto = "ipfix" -> Len(st.maps) + SumSeq([r \in 1..Len(st.maps) |-> ValUnits(st.maps[r])])
+     [] st.k = "odata" -> Len(st.scope) + Len(st.opts) + SumSeq([i \in 1..Len(st.scope) |-> Len(st.scope[i].b)])
+                          + SumSeq([i \in 1..Len(st.opts) |-> Len(st.opts[i].b)])
+     [] st.k = "tmpl" -> SumSeq([r \in 1..Len(st.recs) |-> 1 + Len(st.recs[r].fields)])
+     [] st.k = "otmpl" /\ proto = "v9" -> SumSeq([r \in 1..Len(st.recs) |-> 1 + Len(st.recs[r].scope) + Len(st.recs[r].opts)])
+     [] OTHER -> SumSeq([r \in 1..Len(st.recs) |-> 1 + Len(st.recs[r].fields)]))
+ItemUnits(it) == CASE it.k \in {"v5", "v7"} -> 1 + Len(it.recs) * 21
+                   [] it.k = "err" -> 1 + Len(it.rem) + Len(it.inner)
+                   [] OTHER -> 1 + SumSeq([s \in 1..Len(it.sets) |-> SetUnits(it.k, it.sets[s])])
+Units(out) == SumSeq([i \in 1..Len(out) |-> ItemUnits(out[i])])
+DefWire(d) == 6 + 8 * (IF "fields" \in DOMAIN d THEN Len(d.fields) ELSE Len(d.scope) + Len(d.opts))
+TmWire(tm) == SumSeq([i \in 1..Len(tm.v9.data) |-> DefWire(tm.v9.data[i].def)]) + SumSeq([i \in 1..Len(tm.v9.opts) |-> DefWire(tm.v9.opts[i].def)])
+            + SumSeq([i \in 1..Len(tm.ipfix.data) |-> DefWire(tm.ipfix.data[i].def)]) + SumSeq([i \in 1..Len(tm.ipfix.opts) |-> DefWire(tm.ipfix.opts[i].def)])
+\* the known way to inflate a result: templates with zero-length fields (their acceptance is pinned by a test)
+HasZeroLen(tm) ==
+  \/ \E i \in 1..Len(tm.v9.data) : \E j \in 1..Len(tm.v9.data[i].def.fields) : tm.v9.data[i].def.fields[j].len = 0
+  \/ \E i \in 1..Len(tm.ipfix.data) : \E j \in 1..Len(tm.ipfix.data[i].def.fields) : tm.ipfix.data[i].def.fields[j].len = 0
+  \/ \E i \in 1..Len(tm.ipfix.opts) : \E j \in 1..Len(tm.ipfix.opts[i].def.fields) : tm.ipfix.opts[i].def.fields[j].len = 0
+Shape(pre) == IF HasZeroLen(pre) THEN "zero-length-template" ELSE "other"
+\* on `ret`: the result is at hand, count what it holds
+CostFindings(buf, ev, pre) ==
+  LET units == Units(ev.out)
+      recv == Len(buf) + TmWire(pre) IN
+  IF units > K3 * recv + C1
+    THEN {<<"C15", "cost", "units", Shape(pre)>>}
+    ELSE {}
+
+\* on `parsed` (written the moment parse_bytes returns): the allocator's numbers
+\*   CostA : allocated during the call <= K1 * |buf| + K2 * (bytes the result holds) + C0
+\*   CostH : bytes the result holds    <= KH * Received + CH        (KH: one decoded value per input byte, generously)
+KH == 1024   CHkib == 256
+AllocFindings(buf, ev, pre) ==
+  LET recv == Len(buf) + TmWire(pre) IN
+  (IF ev.alloc.total_kib > (K1 * Len(buf)) \div 1024 + K2 * ev.alloc.held_kib + C0kib
+     THEN {<<"C15", "cost", "alloc", IF ev.nout > 64 THEN "many-packets" ELSE "few-packets">>} ELSE {})
+  \cup (IF ev.alloc.held_kib > (KH * recv) \div 1024 + CHkib THEN {<<"C15", "cost", "held", Shape(pre)>>} ELSE {})
+
+EvParsed == /\ IsEvent("parsed")
+            /\ pend # <<>> /\ pend[1].p = Rec[l].p
+            /\ Emit(AllocFindings(pend[1].buf, Rec[l], tms[Rec[l].p]))
+            /\ UNCHANGED <<tms, lasts, allowed, pend, acc>>
+
+\* the result was too large for the harness to project: only the caches are adopted
+EvRetBig == /\ IsEvent("retbig")
+            /\ pend # <<>> /\ pend[1].p = Rec[l].p
+            /\ tms' = [tms EXCEPT ![Rec[l].p] = TmFor(Rec[l].caches, Rec[l].p)]
+            /\ pend' = <<>>
+            /\ UNCHANGED <<lasts, allowed, acc>>
+
+\* the harness (not the library) failed while projecting a result: no verdict, the session is abandoned
+EvToolCrash == /\ IsEvent("toolcrash")
+               /\ PrintT("TOOL~~" \o ToString(l) \o "~~harness failed while projecting a result")
+               /\ pend' = <<>>
+               /\ UNCHANGED <<tms, lasts, allowed, acc>>
+
+\* LIGHT=1 in the environment: only totality (C01), accounting (C02) and cost (C15) are evaluated - used for
+\* the adversarial 64 KiB inputs, where the full reference decode is left to the thorough tier
+Light == "LIGHT" \in DOMAIN IOEnv /\ IOEnv.LIGHT = "1"
+
+EvRetLight == /\ Light /\ IsEvent("ret")
+              /\ pend # <<>> /\ pend[1].p = Rec[l].p
+              /\ LET ev == Rec[l]  p == ev.p  acct == Accounting(pend[1].buf, ev.out, allowed[p]) IN
+                   /\ Emit((IF acct = "" THEN {} ELSE {<<"C02", "framing", acct, "">>})
+                           \cup CostFindings(pend[1].buf, ev, tms[p])
+                           \cup {<<"C01", "post", "json", ev.json.st>> : x \in IF ev.json.st \in {"panic"} THEN {1} ELSE {}}
+                           \cup {<<"C01", "post", "export", "panic">> : i \in {q \in 1..Len(ev.out) : ev.out[q].exp.st = "panic"}}
+                           \cup {<<"C01", "post", "common", "panic">> : i \in {q \in 1..Len(ev.out) : ev.out[q].common.st = "panic"}})
+                   /\ PrintT("COV~~" \o ToString(l) \o "~~F~~F~~light~~" \o ToString(Len(ev.out)))
+                   /\ tms' = [tms EXCEPT ![p] = TmFor(ev.caches, p)]
+              /\ pend' = <<>>
+              /\ UNCHANGED <<allowed, lasts, acc>>
+
+EvRet == /\ ~Light /\ IsEvent("ret")
          /\ pend # <<>> /\ pend[1].p = Rec[l].p
          /\ LET ev == Rec[l]
                 p  == ev.p
@@ -68,21 +175,81 @@ EvRet == /\ IsEvent("ret")
                /\ (("DEBUG" \in DOMAIN IOEnv /\ ~j.matched) => PrintT(<<"DEBUG-IDEAL", l, j.run.out, j.run.stop, "ALLDEVS", RunCall(pend[1].buf, ObsTm(tms[p], lasts[p]), allowed[p], AllDevs).out>>))
                /\ tms' = [tms EXCEPT ![p] = post]
                /\ lasts' = [lasts EXCEPT ![p] = j.last]
+               /\ acc' = [acc EXCEPT ![p] = [out |-> @.out \o ev.out, nbytes |-> @.nbytes + Len(pend[1].buf),
+                                             calls |-> Append(@.calls, [n |-> Len(pend[1].buf), out |-> ev.out])]]
          /\ pend' = <<>>
          /\ UNCHANGED allowed
 
 \* the specification has no action that explains a panic, an abort, a stack overflow or a hang
 EvDied == /\ \E e \in {"panic", "crash", "hang"} : IsEvent(e)
-          /\ Emit({<<"C01", "call", Rec[l].e,
-                     IF Rec[l].e = "panic" THEN Rec[l].msg
-                     ELSE IF Rec[l].e = "crash" THEN "signal " \o ToString(Rec[l].signal) ELSE "timeout">>})
+          \* memory exhaustion by an oversized result is C15's subject (C01 says so); everything else is C01's
+          /\ Emit({IF Rec[l].e = "crash" /\ Rec[l].cause = "oom" THEN <<"C15", "cost", "oom", "">>
+                   ELSE <<"C01", "call", Rec[l].e,
+                          IF Rec[l].e = "panic" THEN Rec[l].msg
+                          ELSE IF Rec[l].e = "crash" THEN Rec[l].cause \o " signal " \o ToString(Rec[l].signal) ELSE "timeout">>})
           /\ pend' = <<>>
-          /\ UNCHANGED <<tms, lasts, allowed>>
+          /\ UNCHANGED <<tms, lasts, allowed, acc>>
 
-EvOther == /\ \E e \in {"note", "round", "flat", "flatret", "struct"} : IsEvent(e)
+(***************************************************************************)
+(* Relational rounds: observed against observed, no reference decoder.     *)
+(*   chain  (C11, C06): parsers a and b were fed the same packet sequence  *)
+(*          under different cuts at packet boundaries                      *)
+(*   filter (C12): a has allowed set S, b allows everything and was fed    *)
+(*          the same buffers, c allows everything and was fed only the     *)
+(*          bytes before the first packet whose version is not in S        *)
+(*   trunc  (C14): a was fed packets followed by a truncated packet in one *)
+(*          buffer, b only the packets before it                           *)
+(***************************************************************************)
+NoErr(out) == \A i \in 1..Len(out) : out[i].k # "err"
+SelfDelim(out) == \A i \in 1..Len(out) : out[i].k = "v9" => out[i].hdr.count = Len(out[i].sets)
+Lead(out, S) == LET k == FirstIdx(Len(out), LAMBDA q : ObsVersion(out[q]) \notin S) IN
+                IF k = 0 THEN out ELSE SubSeq(out, 1, k - 1)
+RoundFindings(ev) ==
+  IF ev.kind = "chain" THEN
+    \* b was fed one packet per call: its observations certify that the stream is a sequence of
+    \* self-delimiting packets, each decoding without error when delivered alone (C11's antecedent)
+    LET A == acc[ev.a]  B == acc[ev.b]
+        cert == \A i \in 1..Len(B.calls) :
+                  LET c == B.calls[i] IN
+                  /\ Len(c.out) = 1 /\ c.out[1].k # "err" /\ ObsWire(c.out[1]) = c.n
+                  /\ (c.out[1].k = "v9" => c.out[1].hdr.count = Len(c.out[1].sets)) IN
+    IF A.nbytes = B.nbytes /\ B.calls # <<>> /\ cert
+      THEN (IF A.out # B.out THEN {<<"C11", "chain", "results", "">>} ELSE {})
+           \cup (IF tms[ev.a] # tms[ev.b] THEN {<<"C11", "chain", "cache", "">>, <<"C06", "partition", "cache", "">>} ELSE {})
+      ELSE {}
+  ELSE IF ev.kind = "filter" THEN
+    LET A == acc[ev.a]  B == acc[ev.b]  C == acc[ev.c]
+        S == allowed[ev.a]
+        lead == Lead(B.out, S)
+        np == NumPackets(lead)
+        used == SumSeq([i \in 1..np |-> ObsWire(lead[i])]) IN
+    (IF A.out # lead THEN {<<"C12", "filter", "results", "">>} ELSE {})
+    \* the twin c must have been fed exactly the bytes before the first disallowed packet (recomputed here)
+    \cup (IF Len(lead) = Len(B.out) \/ (np = Len(lead) /\ C.nbytes = used)
+           THEN (IF tms[ev.a] # tms[IF Len(lead) = Len(B.out) THEN ev.b ELSE ev.c] THEN {<<"C12", "filter", "cache", "">>} ELSE {})
+           ELSE {})
+  ELSE IF ev.kind = "trunc" THEN
+    LET A == acc[ev.a]  B == acc[ev.b]  n == Len(A.out) IN
+    IF NoErr(B.out) /\ SumSeq([i \in 1..Len(B.out) |-> ObsWire(B.out[i])]) = B.nbytes /\ A.nbytes > B.nbytes
+      THEN (IF n = 0 \/ A.out[n].k # "err" \/ SubSeq(A.out, 1, n - 1) # B.out
+              THEN {<<"C14", "trunc", "earlier-items", "">>} ELSE {})
+           \cup (IF n > 0 /\ A.out[n].k = "err" /\ A.out[n].ver \in {5, 7, 10} /\ tms[ev.a] # tms[ev.b]
+                   THEN {<<"C14", "trunc", "cache", "">>} ELSE {})
+      ELSE {}
+  ELSE {}
+
+\* kind "mark": forget what was accumulated so far (the shared prior history of a round)
+EvRound == /\ IsEvent("round")
+           /\ Emit(RoundFindings(Rec[l]))
+           /\ PrintT("ROUND~~" \o ToString(l) \o "~~" \o Rec[l].kind)
+           /\ acc' = IF Rec[l].kind = "mark" THEN [p \in DOMAIN acc |-> [out |-> <<>>, nbytes |-> 0, calls |-> <<>>]] ELSE acc
            /\ UNCHANGED <<tms, lasts, allowed, pend>>
 
-TraceNext == EvReset \/ EvNew \/ EvAllow \/ EvCall \/ EvRet \/ EvDied \/ EvOther
+EvOther == /\ \E e \in {"note", "flat", "flatret", "struct"} : IsEvent(e)
+           /\ UNCHANGED <<tms, lasts, allowed, pend, acc>>
+
+TraceNext == EvReset \/ EvNew \/ EvAllow \/ EvCall \/ EvParsed \/ EvRet \/ EvRetLight \/ EvRetBig \/ EvToolCrash
+             \/ EvDied \/ EvRound \/ EvOther
 TraceSpec == TraceInit /\ [][TraceNext]_vars
 
 TraceAccepted ==
